@@ -10,6 +10,8 @@ trap 'rm -rf "$out"' EXIT
 cd harness
 go build -tags verif -o "$out/" ./cmd/...
 GOARCH=386 go build -tags verif -o "$out/vchild386" ./cmd/vchild
+GOARCH=386 go build -tags verif -o "$out/vc386" ./cmd/vc
+GOOS=js GOARCH=wasm go build -tags verif -o "$out/vconst.wasm" ./cmd/vconst
 go build -race -tags verif -o "$out/vc-race" ./cmd/vc
 go build -race -tags verif -o "$out/vchild-race" ./cmd/vchild
 (cd /repo && go build -o "$out/" ./cmd/...)
